@@ -42,6 +42,12 @@ func main() {
 		fmt.Sscan(os.Args[4], &part)
 		fmt.Sscan(os.Args[5], &parts)
 		run.EnumPartDebug(os.Args[2], os.Args[3], part, parts)
+	case "racepass":
+		lim := 20
+		if len(os.Args) > 3 {
+			fmt.Sscan(os.Args[3], &lim)
+		}
+		run.RacePass(os.Args[2], lim)
 	case "list":
 		run.List()
 	default:
